@@ -160,7 +160,7 @@ def make_cases(run):
                     cases.append(("corpus", bytes.fromhex(line.split()[-1]).decode("latin1")))
     cases += [("handmade", d) for d in G.HANDMADE]
     cases += [("boundary", d) for d in G.boundary_cases()]
-    nvalid, nunt, nmut, narb = (800, 120, 420, 80) if quick else (110000, 15000, 65000, 9000)
+    nvalid, nunt, nmut, narb = (800, 120, 420, 80) if quick else (34000, 4000, 19000, 3000)
     valid = []
     for _ in range(nvalid):
         valid.append(G.gen_valid(rng, maxpus=rng.choice([16, 64, 256, 512])))
@@ -313,7 +313,8 @@ def check(run, replay=None):
     else:
         cases = make_cases(run)
     limit = 6000 if run.tier == "quick" else 20000
-    model = run_model(drv, [(str(i), d) for i, (k, d) in enumerate(cases)])
+    # self-test aid: HWLOC_VERIF_C07_VARIANT=fixed runs the post-fix model (against a tree with the fix-C07-*.diff patches applied)
+    model = run_model(drv, [(str(i), d) for i, (k, d) in enumerate(cases)], fixed=os.environ.get("HWLOC_VERIF_C07_VARIANT") == "fixed")
     for e in model.pop("__errors__", []):
         run.violation("model-driver-crash", "model driver failed: " + e[-200:], e, no_input=True)
     items, iso = [], []
